@@ -290,3 +290,10 @@ def run(ctx: Ctx):
             if bad:
                 ctx.violation("failing-input", "warm-pids", case, dict(broken=bad[:3], theorem="Ladim.C05.pid_never_reused / Ladim.C08.npid_from_record"),
                               tags=dict(first="pid-reuse", unrecorded_highest_pid=bool(unrecorded), particle_variables=bool(sc["pvars"])))
+
+    # ---- per-particle values addressed by identifier in every file of a split output (the last file shorter)
+    from harness import scen
+    ne = 24 if ctx.thorough else 6
+    ecases = [scen.gen(ctx.seed * 100000 + 5800 + k, layout="sparse", pvars=True, numrec=3, period=1, nsteps=[8, 7, 5][k % 3], kills=bool(k % 2),
+                       continuous=False, rev=bool(k % 4 == 3), speed=0.25) for k in range(ne)]
+    scen.e2e_stream(ctx, "whole-run-split-pvars", ecases, "Ladim.C06.pvars_complete / Ladim.C05.values_follow_* (particle variables at index pid in every file)")
